@@ -6,7 +6,7 @@
 From Coq Require Import QArith List Bool Arith.
 From NurbsV Require Import Base.Res Base.QList Spec.KnotSpec Spec.BSpline Gen.Consts Model.KV Model.Basis Model.CurveM Model.Ops
   Model.CurveOps Model.Linalg Model.Quadrature Model.LeastSq Model.CurveLS.
-From NurbsV Require Import Proofs.BezierProofs Proofs.RemoveBasic.
+From NurbsV Require Import Proofs.MatProofs Proofs.LSProofs Proofs.BezierProofs Proofs.RemoveBasic Proofs.UndoProofs Proofs.GenericUndo.
 Import ListNotations.
 Open Scope Q_scope.
 Theorem C06_bezier_vector_wf :
@@ -64,6 +64,76 @@ Theorem C06_reduction_within_tolerance :
          c_fit_curve knew c nodes = Ok (P', err) /\ err <= t /\ cP c' = Some P'.
 Proof. exact c_update_within_tolerance. Qed.
 Print Assumptions C06_reduction_within_tolerance.
+
+(* ---- degree reduction undoes degree elevation EXACTLY on Bezier curves and is accepted under every tolerance
+   (Proofs/GenericUndo.v: the projection is a left inverse of ANY matrix that preserves the curve - here the elevation
+   matrix, C06_bezier_elevate_many). ---- *)
+Theorem C06_reduction_undoes_elevation_bezier :
+  forall (c : curve) (P : list pt) (d p : nat) (a b : Q) (t : nat) (c1 c2 : curve) (tol : option Q),
+       cW c = None ->
+       cP c = Some P ->
+       Forall2 Qeq (kvec (ckv c)) (bez p a b) ->
+       cdeg c = p ->
+       a < b ->
+       length P = cnpts c ->
+       Forall (fun q : pt => length q = d) P ->
+       c_degree_increase c t = Ok c1 ->
+       c_degree_decrease c1 t tol = Ok c2 ->
+       exists P2 : list pt,
+         cP c2 = Some P2 /\
+         Forall2 (Forall2 Qeq) P2 P /\
+         cW c2 = None /\ Forall2 Qeq (kvec (ckv c2)) (kvec (ckv c)) /\ kdeg (ckv c2) = cdeg c.
+Proof. exact degree_decrease_undoes_degree_increase. Qed.
+Print Assumptions C06_reduction_undoes_elevation_bezier.
+
+Theorem C06_reduction_after_elevation_error_zero :
+  forall (c : curve) (P : list pt) (d p : nat) (a b : Q) (t : nat) (c1 : curve) (knew : kv) (T E : mat),
+       cW c = None ->
+       cP c = Some P ->
+       Forall2 Qeq (kvec (ckv c)) (bez p a b) ->
+       cdeg c = p ->
+       a < b ->
+       length P = cnpts c ->
+       Forall (fun q : pt => length q = d) P ->
+       c_degree_increase c t = Ok c1 ->
+       kset_degree (ckv c1) (kdeg (ckv c1) - t) = Ok knew ->
+       spline2spline (ckv c1) knew (knots_opt knew) = Ok (T, E) ->
+       exists P1 : list pt, cP c1 = Some P1 /\ fit_error E P1 == 0.
+Proof. exact degree_decrease_after_increase_error_zero. Qed.
+Print Assumptions C06_reduction_after_elevation_error_zero.
+
+Theorem C06_reduction_after_elevation_accepted :
+  forall (c : curve) (P : list pt) (d p : nat) (a b : Q) (t : nat) (c1 : curve) 
+         (knew : kv) (T E : mat) (tl : Q),
+       cW c = None ->
+       cP c = Some P ->
+       Forall2 Qeq (kvec (ckv c)) (bez p a b) ->
+       cdeg c = p ->
+       a < b ->
+       length P = cnpts c ->
+       Forall (fun q : pt => length q = d) P ->
+       c_degree_increase c t = Ok c1 ->
+       kset_degree (ckv c1) (kdeg (ckv c1) - t) = Ok knew ->
+       spline2spline (ckv c1) knew (knots_opt knew) = Ok (T, E) ->
+       0 <= tl -> exists c2 : curve, c_degree_decrease c1 t (Some tl) = Ok c2.
+Proof. exact degree_decrease_after_increase_succeeds. Qed.
+Print Assumptions C06_reduction_after_elevation_accepted.
+
+Theorem C06_projection_undoes_any_refinement :
+  forall (kf kc : kv) (M : mat),
+       WF (kvec kf) (kdeg kf) ->
+       WF (kvec kc) (kdeg kc) ->
+       length M = knpts kf ->
+       (forall (P : list Q) (u : Q),
+        length P = knpts kc ->
+        in_range (kvec kc) (kdeg kc) u = true ->
+        curve_spec1 (kvec kf) (kdeg kf) (mvec M P) u == curve_spec1 (kvec kc) (kdeg kc) P u) ->
+       forall (ns : list Q) (T E : mat),
+       spline2spline kf kc (Some ns) = Ok (T, E) ->
+       (0 < length ns)%nat -> meq (mmul_n (knpts kc) T M) (ident (knpts kc)).
+Proof. exact GU3_left_inverse. Qed.
+Print Assumptions C06_projection_undoes_any_refinement.
+
 
 (* non-vacuity: a two-span degree-2 curve elevated by 1 and reduced again by the model *)
 Example C06_nonvacuous :
